@@ -465,6 +465,9 @@ def run(spec: dict[str, Any], timeout: float = 120.0) -> dict[str, Any]:
     oplog_path = spec.get("oplog_path")
     if oplog_path and os.path.exists(oplog_path):
         os.unlink(oplog_path)
+    co = spec.get("child_output")
+    if co and os.path.exists(co):
+        os.unlink(co)
     res = kit.fork_call(
         _child, spec, timeout=timeout, output_path=spec.get("child_output"), new_group=True
     )
@@ -485,6 +488,12 @@ def run(spec: dict[str, Any], timeout: float = 120.0) -> dict[str, Any]:
             "oplog": log.get("log", []),
             "fired": log.get("fired", {}),
         }
+    if co and os.path.exists(co):
+        try:
+            with open(co, errors="replace") as f:
+                res["leaked"] = f.read()[-6000:]
+        except OSError:
+            pass
     return res
 
 
